@@ -159,29 +159,22 @@ end Heap
 
 /-! ## The assignments performed by one `linkProperties` run
 
-Sources are read in the state BEFORE the run (`Src.slot o` = the record `o.peng` pointed to when the run
-started) or are the record allocated by the run itself (`Src.fresh`).  `Model/HeapLink.plan` resolves the
-chains of the Python code (`self.peng = head.peng; e.peng = self.peng` ↦ both from `head`).  The driver
-re-executes every plan with reads in the CURRENT state as well (`execDyn`) and reports a driver error when the two
-differ, so that this resolution is itself tested on every history of the correspondence check. -/
+`Model/HeapLink.plan` lists, in program order, the assignments the Python code performs; every read is a read of
+the CURRENT state, exactly as in the Python statements (`self.peng = head.peng; e.peng = self.peng`).
+(`Lemmas/HeapResolve` proves that the same run can be executed with every source read in the state BEFORE the run,
+after a symbolic resolution of the chains — the form used by the confluence proofs.) -/
 
-inductive Src where
-  | slot (o : Nat)
-  | fresh
-  deriving DecidableEq, Repr
-
-/-- In `setPeng/writeN/copyG` the field `dyn` is the object whose CURRENT `peng` the Python statement reads
-    (`e.peng = self.peng` ↦ `dyn = self`); `exec` ignores it, `execDyn` uses it instead of the resolved source. -/
 inductive Act where
-  /-- `x.peng = <src>.peng`; `strict`: `AttributeError` when the source has no `peng`, else skipped -/
-  | setPeng (strict : Bool) (x : Nat) (s : Src) (dyn : Nat)
-  /-- `x.taux = o.taux` -/
-  | setTaux (strict : Bool) (x : Nat) (o : Nat)
-  /-- `<src>.peng["n"] = v` -/
-  | writeN (strict : Bool) (s : Src) (dyn : Nat) (v : Val)
-  /-- `t.peng["g"] = <src>.peng["g"]` (`KeyError` when the source record has no `g`) -/
-  | copyG (strict : Bool) (t : Nat) (s : Src) (dyn : Nat)
-  /-- allocate a new record `{}` for `x` (`ifNone`: only when `x` has no `peng`); it is `Src.fresh` afterwards -/
+  /-- `x.peng = y.peng`; `strict`: `AttributeError` when `y` has no `peng`, else (the statement is under
+      `if hasattr(y,"peng")`) skipped -/
+  | setPeng (strict : Bool) (x y : Nat)
+  /-- `x.taux = y.taux` -/
+  | setTaux (strict : Bool) (x y : Nat)
+  /-- `y.peng["n"] = v` -/
+  | writeN (strict : Bool) (y : Nat) (v : Val)
+  /-- `t.peng["g"] = y.peng["g"]` (`KeyError` when the record of `y` has no `g`) -/
+  | copyG (strict : Bool) (t y : Nat)
+  /-- `x.peng = {}` a new record (`ifNone`: only when `x` has no `peng`) -/
   | fresh (x : Nat) (ifNone : Bool)
   /-- `x.cod = y` -/
   | setCod (x y : Nat)
@@ -195,79 +188,22 @@ inductive Act where
   | crash (c : Crash)
   deriving DecidableEq, Repr
 
-/-- resolution of a source: `none` = the source object has no `peng` -/
-def Src.resolve (h0 : Heap) (fr : Option Nat) : Src → Option Nat
-  | .slot o => h0.peng o
-  | .fresh => fr
-
-/-- one assignment; `h0` = the state before the run, `fr` = the record allocated by the run so far -/
-def step (h0 : Heap) (st : Heap × Option Nat) : Act → Except Crash (Heap × Option Nat)
-  | .setPeng strict x s _ =>
-    match s.resolve h0 st.2 with
-    | some r => .ok ({ st.1 with peng := upd st.1.peng x (some r) }, st.2)
-    | none => if strict then .error .attributeError else .ok st
-  | .setTaux strict x o =>
-    match h0.taux o with
-    | some r => .ok ({ st.1 with taux := upd st.1.taux x (some r) }, st.2)
-    | none => if strict then .error .attributeError else .ok st
-  | .writeN strict s _ v =>
-    match s.resolve h0 st.2 with
-    | some r => .ok ({ st.1 with prec := upd st.1.prec r { st.1.prec r with n := some v } }, st.2)
-    | none => if strict then .error .attributeError else .ok st
-  | .copyG strict t s _ =>
-    match s.resolve h0 st.2 with
-    | none => if strict then .error .attributeError else .ok st
-    | some r =>
-      match (st.1.prec r).g with
-      | none => .error .keyError
-      | some gv =>
-        match h0.peng t with
-        | none => .error .attributeError
-        | some rt => .ok ({ st.1 with prec := upd st.1.prec rt { st.1.prec rt with g := some gv } }, st.2)
-  | .fresh x ifNone =>
-    if ifNone && (h0.peng x).isSome then .ok st
-    else
-      let r := st.1.nRec
-      .ok ({ st.1 with peng := upd st.1.peng x (some r), prec := upd st.1.prec r {}, nRec := r + 1 }, some r)
-  | .setCod x y => .ok ({ st.1 with cod := upd st.1.cod x (some y) }, st.2)
-  | .setSubject x y => .ok ({ st.1 with subject := upd st.1.subject x (some y) }, st.2)
-  | .morphoError x =>
-    let nd := st.1.node x
-    .ok (({ st.1 with node := upd st.1.node x { nd with kind := .Q } }).warn, st.2)
-  | .guardHas _ => .ok st
-  | .crash c => .error c
-
-def execFrom (h0 : Heap) : Heap × Option Nat → List Act → Except Crash (Heap × Option Nat)
-  | st, [] => .ok st
-  | st, a :: as =>
-    if (match a with | .guardHas o => (h0.peng o).isNone | _ => false) then .ok st
-    else
-    match step h0 st a with
-    | .error c => .error c
-    | .ok st' => execFrom h0 st' as
-
-/-- execute the assignments of one `linkProperties` run -/
-def exec (h : Heap) (acts : List Act) : Except Crash Heap :=
-  match execFrom h (h, none) acts with
-  | .error c => .error c
-  | .ok st => .ok st.1
-
-/-- the same assignment with every read in the CURRENT state, as the Python statement does -/
-def stepDyn (st : Heap) : Act → Except Crash Heap
-  | .setPeng strict x _ dyn =>
-    match st.peng dyn with
+/-- one assignment -/
+def step (st : Heap) : Act → Except Crash Heap
+  | .setPeng strict x y =>
+    match st.peng y with
     | some r => .ok { st with peng := upd st.peng x (some r) }
     | none => if strict then .error .attributeError else .ok st
-  | .setTaux strict x o =>
-    match st.taux o with
+  | .setTaux strict x y =>
+    match st.taux y with
     | some r => .ok { st with taux := upd st.taux x (some r) }
     | none => if strict then .error .attributeError else .ok st
-  | .writeN strict _ dyn v =>
-    match st.peng dyn with
+  | .writeN strict y v =>
+    match st.peng y with
     | some r => .ok { st with prec := upd st.prec r { st.prec r with n := some v } }
     | none => if strict then .error .attributeError else .ok st
-  | .copyG strict t _ dyn =>
-    match st.peng dyn with
+  | .copyG strict t y =>
+    match st.peng y with
     | none => if strict then .error .attributeError else .ok st
     | some r =>
       match (st.prec r).g with
@@ -281,17 +217,27 @@ def stepDyn (st : Heap) : Act → Except Crash Heap
     else
       let r := st.nRec
       .ok { st with peng := upd st.peng x (some r), prec := upd st.prec r {}, nRec := r + 1 }
-  | a => match step st (st, none) a with
-    | .ok s' => .ok s'.1
-    | .error c => .error c
+  | .setCod x y => .ok { st with cod := upd st.cod x (some y) }
+  | .setSubject x y => .ok { st with subject := upd st.subject x (some y) }
+  | .morphoError x =>
+    let nd := st.node x
+    .ok ({ st with node := upd st.node x { nd with kind := .Q } }).warn
+  | .guardHas _ => .ok st
+  | .crash c => .error c
 
-def execDyn : Heap → List Act → Except Crash Heap
+/-- does the run end (successfully) at this point?  `guardHas o` with `o` lacking a `peng` -/
+def Act.stops (peng : Nat → Option Nat) : Act → Bool
+  | .guardHas o => (peng o).isNone
+  | _ => false
+
+/-- execute the assignments of one `linkProperties` run -/
+def exec : Heap → List Act → Except Crash Heap
   | st, [] => .ok st
   | st, a :: as =>
-    if (match a with | .guardHas o => (st.peng o).isNone | _ => false) then .ok st
+    if a.stops st.peng then .ok st
     else
-    match stepDyn st a with
+    match step st a with
     | .error c => .error c
-    | .ok st' => execDyn st' as
+    | .ok st' => exec st' as
 
 end Pyrealb.Heap
